@@ -10,6 +10,25 @@ fn usage() -> ! {
     exit(2)
 }
 
+fn parse_cfg(args: &[String]) -> Cfg {
+    let mut cfg = Cfg::default();
+    for a in args {
+        if let Some((k, v)) = a.split_once('=') {
+            match k {
+                "wrap_column" => cfg.wrap_column = v.parse().unwrap(),
+                "begin_style" => cfg.begin_always_wrap = v == "always_wrap",
+                "format_multiline_strings" => cfg.format_multiline_strings = v == "true",
+                "use_tabs" => cfg.use_tabs = v == "true",
+                "tab_width" => cfg.tab_width = v.parse().unwrap(),
+                "continuation_indents" => cfg.continuation_indents = v.parse().unwrap(),
+                "line_ending" => cfg.crlf = v == "crlf",
+                _ => {}
+            }
+        }
+    }
+    cfg
+}
+
 fn seed_env() -> u64 {
     std::env::var("VERIF_SEED")
         .ok()
@@ -31,26 +50,82 @@ fn main() {
             use std::io::Read;
             let mut input = String::new();
             std::io::stdin().read_to_string(&mut input).unwrap();
-            let mut cfg = Cfg::default();
-            for a in &args[1..] {
-                if let Some((k, v)) = a.split_once('=') {
-                    match k {
-                        "wrap_column" => cfg.wrap_column = v.parse().unwrap(),
-                        "begin_style" => cfg.begin_always_wrap = v == "always_wrap",
-                        "format_multiline_strings" => cfg.format_multiline_strings = v == "true",
-                        "use_tabs" => cfg.use_tabs = v == "true",
-                        "tab_width" => cfg.tab_width = v.parse().unwrap(),
-                        "continuation_indents" => cfg.continuation_indents = v.parse().unwrap(),
-                        "line_ending" => cfg.crlf = v == "crlf",
-                        _ => {}
-                    }
-                }
-            }
+            let cfg = parse_cfg(&args[1..]);
             let t0 = std::time::Instant::now();
             let out = format_with(&cfg, &input);
             let dt = t0.elapsed();
             print!("{out}");
             eprintln!("[{} bytes in, {} bytes out, {:?}, logs: {:?}]", input.len(), out.len(), dt, logcap::take());
+        }
+        "sample" => {
+            // sample <prop> <stream> <n> [tape_max]: print generated cases (debugging aid)
+            use proptest::strategy::{Strategy, ValueTree};
+            let prop = props::by_id(&args[1]).unwrap_or_else(|| usage());
+            let n: usize = args[3].parse().unwrap_or(3);
+            let tape_max: usize = args.get(4).and_then(|s| s.parse().ok()).unwrap_or(400);
+            let mut runner = proptest::test_runner::TestRunner::new(proptest::test_runner::Config {
+                rng_seed: proptest::test_runner::RngSeed::Fixed(seed_env()),
+                failure_persistence: None,
+                ..Default::default()
+            });
+            let strat = proptest::collection::vec(proptest::num::u8::ANY, 0..=tape_max);
+            let mut shown = 0;
+            let mut tries = 0;
+            while shown < n && tries < 10000 {
+                tries += 1;
+                let tape = strat.new_tree(&mut runner).unwrap().current();
+                let mut t = Tape::new(&tape);
+                if let Some(c) = prop.generate(&args[2], &mut t) {
+                    shown += 1;
+                    println!("=== case {shown} (tape {} bytes) cfg: {}", tape.len(), c.cfg.to_toml().replace('\n', "; "));
+                    println!("{}", c.input);
+                    if let Some(i2) = &c.input2 {
+                        println!("--- input2\n{i2}");
+                    }
+                    if std::env::var("VERIF_SHOW_OUT").is_ok() {
+                        println!("--- formatted\n{}", format_with(&c.cfg, &c.input));
+                    }
+                    let mut ctx = Ctx::default();
+                    match eval(prop, &c, &mut ctx) {
+                        Outcome::Fail(f) => println!("--- FAIL [{}] {}", f.clause, f.message),
+                        Outcome::Discard(w) => println!("--- DISCARD {w}"),
+                        Outcome::Pass { nontrivial } => println!("--- pass nontrivial={nontrivial}"),
+                    }
+                }
+            }
+            println!("({tries} tapes tried)");
+        }
+        "mkcase" => {
+            // mkcase <prop> <clause> <outfile> [key=value ...] [tag:<t> ...] [cursor:<n> ...] < input
+            // writes a replay file for a well-formed case (annotation = the reference scan)
+            use std::io::Read;
+            let mut input = String::new();
+            std::io::stdin().read_to_string(&mut input).unwrap();
+            let cfg = parse_cfg(&args[4..]);
+            let toks = vf::model::refscan::scan(&input);
+            let mut c = Case::text("handmade", input.clone(), cfg);
+            c.ann = Some(Ann {
+                lexemes: toks[..toks.len() - 1].iter().map(|x| x.text(&input).to_string()).collect(),
+                kinds: toks[..toks.len() - 1].iter().map(|x| x.kind as u8).collect(),
+                marks: vec![],
+                tags: vec![],
+            });
+            c.tags = args[4..].iter().filter_map(|a| a.strip_prefix("tag:")).map(|s| s.to_string()).collect();
+            c.cursors = args[4..].iter().filter_map(|a| a.strip_prefix("cursor:")).filter_map(|s| s.parse().ok()).collect();
+            let rep = Replay {
+                property: args[1].clone(),
+                clause: args[2].clone(),
+                message: "hand-made case (see known_findings.json)".into(),
+                facts: vec![format!("clause:{}", args[2])],
+                case: c,
+                input_hex: String::new(),
+                tape_hex: String::new(),
+                stream: String::new(),
+                seed: 0,
+                tier: String::new(),
+                shrunk: true,
+            };
+            std::fs::write(&args[3], serde_json::to_string_pretty(&rep).unwrap()).unwrap();
         }
         "list" => {
             for p in props::all() {
